@@ -744,7 +744,7 @@ structure Sync.Inv (stamp : Stamp) (s : Sync) : Prop where
   db_ok : ∀ id c, s.db id = some c → c.id = id ∧ s.Older stamp c.upd
   file_ok : ∀ id c, s.file id = some c → c.id = id ∧ s.Older stamp c.upd
   cache_ok : ∀ id it, s.cache id = some it →
-    s.Older stamp it.upd ∧ ∀ c, s.db id = some c → ¬ it.upd < c.upd → it.rules = c.rules
+    s.Older stamp it.upd ∧ ∀ c, s.db id = some c → it.upd = c.upd → it.rules = c.rules
 
 theorem Sync.init_inv (stamp : Stamp) : Sync.init.Inv stamp :=
   ⟨by intro id c h; simp [Sync.init, Tbl.empty] at h, by intro id c h; simp [Sync.init, Tbl.empty] at h,
@@ -772,18 +772,34 @@ theorem Sync.query_out {stamp : Stamp} {s : Sync} (hi : s.Inv stamp) (id : Strin
         · rename_i hlt
           have hid := (hi.db_ok id c hc).1
           rw [hid] at hit
-          rw [(hi.cache_ok id it hit).2 c hc hlt]
+          rw [(hi.cache_ok id it hit).2 c hc (Decidable.not_not.mp hlt)]
       · rfl
   · rfl
 
-theorem Sync.step_inv {stamp : Stamp} (hs : StrictStamp stamp) {s : Sync} (hi : s.Inv stamp) (op : YOp) :
+theorem Sync.step_inv {stamp : Stamp} (hs : StrictStamp stamp) {s : Sync} (hi : s.Inv stamp) (op : YOp)
+    (hb : ∀ back, op = .restart back → back = 0) :
     (s.step stamp op).1.Inv stamp := by
   cases op with
   | change id rules dt => exact ⟨hi.db_ok, hi.file_ok, hi.cache_ok⟩
-  | restart =>
-    refine ⟨hi.file_ok, hi.file_ok, ?_⟩
-    intro id it h
-    simp [Sync.step, Tbl.empty] at h
+  | restart back =>
+    have h0 : back = 0 := hb back rfl
+    subst h0
+    have hnow : s.now - ((0 : Nat) : Int) = s.now := by omega
+    refine ⟨?_, ?_, ?_⟩
+    · intro id c h
+      have := hi.file_ok id c h
+      refine ⟨this.1, ?_⟩
+      intro now' req' hn
+      simp only [Sync.step, hnow] at hn
+      exact this.2 now' req' hn
+    · intro id c h
+      have := hi.file_ok id c h
+      refine ⟨this.1, ?_⟩
+      intro now' req' hn
+      simp only [Sync.step, hnow] at hn
+      exact this.2 now' req' hn
+    · intro id it h
+      simp [Sync.step, Tbl.empty] at h
   | evict id =>
     refine ⟨hi.db_ok, hi.file_ok, ?_⟩
     intro id' it h
@@ -860,15 +876,147 @@ theorem Sync.step_inv {stamp : Stamp} (hs : StrictStamp stamp) {s : Sync} (hi : 
       · rename_i p hp
         simp only [Option.some.injEq] at hdbc
         subst hdbc
-        exact absurd (hc.1 _ _ hlt) hn
+        have := hc.1 _ (if full then 0 else s.syncTime) hlt
+        simp only [confOf] at hn
+        omega
       · split at hdbc
         · simp at hdbc
         · exact hc.2 c hdbc hn
 
-theorem Sync.final_inv {stamp : Stamp} (hs : StrictStamp stamp) (ops : List YOp) {s : Sync} (hi : s.Inv stamp) :
-    (Sync.final stamp s ops).Inv stamp := by
+theorem NoSetBack.head {op : YOp} {ops : List YOp} (h : NoSetBack (op :: ops)) :
+    (∀ back, op = .restart back → back = 0) ∧ NoSetBack ops := by
+  cases op with
+  | restart back => exact ⟨fun b hb => (by cases hb; exact h.1), h.2⟩
+  | change id rules dt => exact ⟨fun b hb => (by cases hb), h⟩
+  | sync full dt => exact ⟨fun b hb => (by cases hb), h⟩
+  | query id => exact ⟨fun b hb => (by cases hb), h⟩
+  | evict id => exact ⟨fun b hb => (by cases hb), h⟩
+
+theorem NoSetBack.append : ∀ {ops ops' : List YOp}, NoSetBack ops → NoSetBack ops' → NoSetBack (ops ++ ops')
+  | [], _, _, h' => h'
+  | op :: ops, ops', h, h' => by
+    have ih := NoSetBack.append (NoSetBack.head h).2 h'
+    cases op <;> simp only [List.cons_append, NoSetBack] at h ⊢
+    all_goals first | exact ih | exact ⟨h.1, ih⟩
+
+theorem Sync.final_inv {stamp : Stamp} (hs : StrictStamp stamp) (ops : List YOp) (hb : NoSetBack ops) {s : Sync}
+    (hi : s.Inv stamp) : (Sync.final stamp s ops).Inv stamp := by
   induction ops generalizing s with
   | nil => exact hi
-  | cons op ops ih => exact ih (Sync.step_inv hs hi op)
+  | cons op ops ih => exact ih (NoSetBack.head hb).2 (Sync.step_inv hs hi op (NoSetBack.head hb).1)
+
+/-! ### The same pipeline when the clock may be set back across a restart -/
+
+/-- What the fixed custom-filter storage needs: an item whose stamp equals the one `profiledb` holds
+for the profile was compiled from the rules `profiledb` holds. -/
+structure Sync.InvEq (s : Sync) : Prop where
+  db_ok : ∀ id c, s.db id = some c → c.id = id
+  file_ok : ∀ id c, s.file id = some c → c.id = id
+  cache_ok : ∀ id it, s.cache id = some it → ∀ c, s.db id = some c → it.upd = c.upd → it.rules = c.rules
+
+theorem Sync.init_invEq : Sync.init.InvEq :=
+  ⟨by intro id c h; simp [Sync.init, Tbl.empty] at h, by intro id c h; simp [Sync.init, Tbl.empty] at h,
+   by intro id it h; simp [Sync.init, Tbl.empty] at h⟩
+
+theorem Sync.query_out_eq {stamp : Stamp} {s : Sync} (hi : s.InvEq) (id : String) :
+    (s.step stamp (.query id)).2 = s.fresh id := by
+  simp only [Sync.step, Sync.fresh]
+  split
+  · rename_i c hc
+    simp only [CU.step, cuFresh]
+    split
+    · rfl
+    · split
+      · rename_i it hit
+        split
+        · rfl
+        · rename_i hlt
+          have hid := hi.db_ok id c hc
+          rw [hid] at hit
+          rw [hi.cache_ok id it hit c hc (Decidable.not_not.mp hlt)]
+      · rfl
+  · rfl
+
+/-- One step keeps `InvEq`, provided the stamp of a synchronisation is fresh. -/
+theorem Sync.step_invEq {stamp : Stamp} {s : Sync} (hi : s.InvEq) (op : YOp)
+    (hf : ∀ full dt, op = .sync full dt → ∀ id it, s.cache id = some it →
+      it.upd ≠ stamp (s.now + dt + 1) (if full then 0 else s.syncTime)) :
+    (s.step stamp op).1.InvEq := by
+  cases op with
+  | change id rules dt => exact ⟨hi.db_ok, hi.file_ok, hi.cache_ok⟩
+  | restart back =>
+    refine ⟨hi.file_ok, hi.file_ok, ?_⟩
+    intro id it h
+    simp [Sync.step, Tbl.empty] at h
+  | evict id =>
+    refine ⟨hi.db_ok, hi.file_ok, ?_⟩
+    intro id' it h
+    simp only [Sync.step, Tbl.del] at h
+    split at h
+    · simp at h
+    · exact hi.cache_ok id' it h
+  | query id =>
+    simp only [Sync.step]
+    split
+    · rename_i c hc
+      have hcid := hi.db_ok id c hc
+      have hput : Sync.InvEq { s with cache := Tbl.put s.cache c.id ⟨c.upd, c.rules⟩ } := by
+        refine ⟨hi.db_ok, hi.file_ok, ?_⟩
+        intro id' it h
+        simp only [Tbl.put] at h
+        split at h
+        · rename_i heq
+          simp only [Option.some.injEq] at h
+          subst h
+          intro c' hc' _
+          have : id' = id := by rw [heq, hcid]
+          rw [this, hc] at hc'
+          simp only [Option.some.injEq] at hc'
+          rw [hc']
+        · exact hi.cache_ok id' it h
+      simp only [CU.step]
+      split
+      · exact hi
+      · split
+        · split
+          · exact hput
+          · exact hi
+        · exact hput
+    · exact hi
+  | sync full dt =>
+    have hdb : ∀ id c,
+        (match delivered s.backend full (if full then 0 else s.syncTime) id with
+          | some p => some (confOf p (stamp (s.now + dt + 1) (if full then 0 else s.syncTime)))
+          | none => if full then none else s.db id) = some c → c.id = id := by
+      intro id c h
+      split at h
+      · rename_i p hp
+        simp only [Option.some.injEq] at h
+        subst h
+        exact delivered_id hp
+      · split at h
+        · simp at h
+        · exact hi.db_ok id c h
+    refine ⟨?_, ?_, ?_⟩
+    · intro id c h
+      exact hdb id c h
+    · intro id c h
+      simp only [Sync.step] at h
+      split at h
+      · rename_i hfull
+        subst hfull
+        exact hdb id c h
+      · exact hi.file_ok id c h
+    · intro id it h c hdbc hn
+      simp only [Sync.step] at hdbc
+      split at hdbc
+      · rename_i p hp
+        simp only [Option.some.injEq] at hdbc
+        subst hdbc
+        simp only [confOf] at hn
+        exact absurd hn (hf full dt rfl id it h)
+      · split at hdbc
+        · simp at hdbc
+        · exact hi.cache_ok id it h c hdbc hn
 
 end Agd.ResultCache
